@@ -54,8 +54,18 @@ pub fn gchar() -> BoxedStrategy<char> {
 /// Mostly short strings (0..=8 chars), occasionally longer.
 pub fn gtext(min: usize) -> BoxedStrategy<String> {
     prop_oneof![
-        20 => proptest::collection::vec(gchar(), min..=8),
-        2 => proptest::collection::vec(gchar(), min.max(9)..=40),
+        40 => proptest::collection::vec(gchar(), min..=8),
+        4 => proptest::collection::vec(gchar(), min.max(9)..=40),
+        // lengths around the inline capacity of the small-string type (23 bytes) and around powers of two,
+        // mostly ASCII so that the byte length is the character count
+        1 => (prop_oneof![Just(22usize), Just(23), Just(24), Just(25), Just(31), Just(32), Just(33), Just(63), Just(64), Just(65)], gchar(), select(ALNUM))
+            .prop_map(|(n, odd, fill)| {
+                let mut v: Vec<char> = std::iter::repeat(fill).take(n).collect();
+                if n > 0 {
+                    v[n / 2] = odd;
+                }
+                v
+            }),
     ]
     .prop_map(|v| v.into_iter().collect::<String>())
     .boxed()
